@@ -215,7 +215,7 @@ class Language(BaseLanguage):
         Cached property to ensure we don't have to recompile TokenEncoders for each filter invocation.
         """
         return TokenEncoder(
-            self,
+            self, ["allocator"] if self.get_option("ctor_convention", "default") != "default" else None,  # a ctor parameter's name
             stropping_failure_handler=self._handle_stropping_or_encoding_failure,
             encoding_failure_handler=self._handle_stropping_or_encoding_failure,
         )
